@@ -799,6 +799,136 @@ func randName(r *rand.Rand, budget *int, odd int) string {
 	return nm
 }
 
+// existingDest names something that exists `up` levels above the target directory (up <= 0: a
+// name inside it): a link is only kept by RemoveObsoleteSymlinks when its destination exists.
+func existingDest(r *rand.Rand, up int) string {
+	leaf := []string{"targetx", "tmp", "cwd", "in"}[r.Intn(4)]
+	switch {
+	case up <= 0:
+		return plainSegs[r.Intn(len(plainSegs))]
+	case up == 1:
+		return leaf
+	default:
+		return strings.Repeat("o/", up-2) + "b/" + leaf
+	}
+}
+
+func leadingDotDots(p string) int {
+	n := 0
+	for _, x := range strings.Split(p, "/") {
+		if x != ".." {
+			break
+		}
+		n++
+	}
+	return n
+}
+
+// trickyTarget builds a link target out of "..", ".", EMPTY segments and names (".//../x",
+// "..//../x", "../..//..//x", "/etc//../../x") and completes it with a destination that exists
+// where the target lands lexically. linkDir is the cleaned directory of the link ("." at top
+// level); rootRelative: measure from the archive root (hard-link semantics) instead.
+func trickyTarget(r *rand.Rand, linkDir string, budget *int, abs, rootRelative bool) string {
+	n := 2 + r.Intn(5)
+	var comps []string
+	dd := 0
+	for i := 0; i < n; i++ {
+		k := r.Intn(100)
+		switch {
+		case k < 45 && dd < 3 && dd < *budget:
+			comps = append(comps, "..")
+			dd++
+		case k < 65:
+			if i == 0 {
+				comps = append(comps, ".")
+			} else {
+				comps = append(comps, "")
+			}
+		case k < 80:
+			comps = append(comps, ".")
+		default:
+			comps = append(comps, append(plainSegs, "etc", "target")[r.Intn(len(plainSegs)+2)])
+		}
+	}
+	*budget -= dd
+	t := strings.Join(comps, "/")
+	var landing string
+	if abs || rootRelative {
+		landing = path.Clean(strings.TrimLeft(t, "/"))
+	} else {
+		landing = path.Clean(linkDir + "/" + t)
+	}
+	if landing == "" {
+		landing = "."
+	}
+	t = t + "/" + existingDest(r, leadingDotDots(landing))
+	if abs {
+		t = "/" + t
+	}
+	return t
+}
+
+// genLinkShape: cases without any write-through-link shape (no entry name passes through the
+// name of a link entry), so that the lexical kept-link oracle is claimed on them.
+func genLinkShape(r *rand.Rand) *Case {
+	c := &Case{Stream: "unpack-linkshape", Op: "unpack-tarball", Passes: []int{1, 2, 3}[r.Intn(3)]}
+	if r.Intn(3) == 0 {
+		c.Op = "unpack-image"
+	}
+	c.EvilSibling = r.Intn(3) == 0
+	budget := maxDotDot
+	var es []Entry
+	for i, n := 0, 1+r.Intn(3); i < n; i++ {
+		depth := 1 + r.Intn(3)
+		var segs []string
+		for j := 0; j < depth; j++ {
+			segs = append(segs, plainSegs[r.Intn(len(plainSegs))])
+		}
+		nm := strings.Join(segs, "/") + fmt.Sprintf("/f%d", i)
+		if r.Intn(3) == 0 {
+			es = append(es, Entry{Name: strings.Join(segs, "/") + fmt.Sprintf("/d%d", i), Type: "dir"})
+		}
+		es = append(es, Entry{Name: nm, Type: "reg", Size: randSize(r)})
+	}
+	for i, n := 0, 1+r.Intn(3); i < n; i++ {
+		depth := r.Intn(4)
+		var segs []string
+		for j := 0; j < depth; j++ {
+			segs = append(segs, plainSegs[r.Intn(len(plainSegs))])
+		}
+		linkDir := "."
+		if depth > 0 {
+			linkDir = strings.Join(segs, "/")
+		}
+		e := Entry{Name: strings.Join(append(segs, fmt.Sprintf("l%d", i)), "/"), Type: "sym"}
+		if r.Intn(5) < 2 {
+			e.Type = "hard"
+		}
+		if r.Intn(6) == 0 {
+			e.Name = "./" + e.Name
+		}
+		abs := r.Intn(4) == 0
+		rootRel := e.Type == "hard" && r.Intn(2) == 0
+		e.Link = trickyTarget(r, linkDir, &budget, abs, rootRel)
+		pos := len(es)
+		if r.Intn(2) == 0 {
+			pos = r.Intn(len(es) + 1)
+		}
+		es = append(es[:pos], append([]Entry{e}, es[pos:]...)...)
+	}
+	if c.Op == "unpack-image" {
+		nl := 1 + r.Intn(2)
+		c.Layers = make([][]Entry, nl)
+		for _, e := range es {
+			k := r.Intn(nl)
+			c.Layers[k] = append(c.Layers[k], e)
+		}
+	} else {
+		c.Layers = [][]Entry{es}
+	}
+	return c
+}
+
 func randSize(r *rand.Rand) int {
 	return []int{0, 1, 3, 9, 10, 11, 17, 40}[r.Intn(8)]
 }
@@ -819,7 +949,10 @@ func randEntry(r *rand.Rand, budget *int, odd int, prior []Entry) Entry {
 		e.Type = "fifo"
 	}
 	if e.Type == "sym" || e.Type == "hard" {
-		switch k := r.Intn(10); {
+		switch k := r.Intn(11); {
+		case k == 10:
+			d := path.Dir(path.Clean(e.Name))
+			e.Link = trickyTarget(r, d, budget, r.Intn(4) == 0, false)
 		case k < 5:
 			e.Link = randName(r, budget, odd)
 		case k < 7 && len(prior) > 0:
@@ -1094,6 +1227,7 @@ func main() {
 	nUnpack := flag.Int("unpack", 200, "random unpack cases")
 	nScen := flag.Int("scenario", 100, "scenario-based unpack cases")
 	nD := flag.Int("indomain", 100, "unpack cases inside the domain D")
+	nLS := flag.Int("linkshape", 100, "unpack cases with tricky link targets and no write-through-link shape")
 	nImage := flag.Int("image", 150, "image loading cases")
 	nPath := flag.Int("paths", 1000, "path algebra cases")
 	known := flag.String("known", "", "JSON file with known-finding witnesses (replayed first)")
@@ -1173,12 +1307,16 @@ func main() {
 		must(err)
 		var ks []struct {
 			ID      string `json:"id"`
+			Prefix  string `json:"prefix"`
 			Witness Case   `json:"witness"`
 		}
 		must(json.Unmarshal(b, &ks))
 		for _, k := range ks {
 			c := k.Witness
-			c.Stream = "known:" + k.ID
+			if k.Prefix == "" {
+				k.Prefix = "known"
+			}
+			c.Stream = k.Prefix + ":" + k.ID
 			cases = append(cases, &c)
 		}
 	}
@@ -1196,6 +1334,7 @@ func main() {
 	add(*nScen, func() *Case { return genUnpack(r, "unpack-scenario") })
 	add(*nUnpack, func() *Case { return genUnpack(r, "unpack-random") })
 	add(*nD, func() *Case { return genUnpack(r, "unpack-D") })
+	add(*nLS, func() *Case { return genLinkShape(r) })
 	add(*nImage/3, func() *Case { return genImage(r, "image-scenario") })
 	add(*nImage/3, func() *Case { return genImage(r, "image-random") })
 	add(*nImage-2*(*nImage/3), func() *Case { return genImage(r, "image-benign") })
